@@ -66,6 +66,10 @@ def configs():
             # the second field excluded from OUTPUT: input names and binding are not affected
             yield idx, dict(spec, fields=[f1, dict(f2, exclude=True)])
             idx += 1
+            if 'tuple' in inf:
+                # ... and with the positional OUTPUT layout: the excluded field is left out of the sequence as well
+                yield idx, dict(spec, opts=dict(spec['opts'], out_format='tuple'), fields=[f1, dict(f2, exclude=True)])
+                idx += 1
         if not kw1 and not kw2:
             # the same class written as a generic one (second field typed by a type variable) and subscripted with int: naming and
             # layout rules are those of the plain class
